@@ -123,6 +123,8 @@ class Interp:
         for name in mod.classes:
             self.globals[name] = ('class', name)
         self.depth = 0
+        self.max_depth = 4
+        self._lazy = {}
         self.fail_parse = None   # optional oracle: parse_expression(x) raises when fail_parse(x) is true
         self.trace = []      # (event, detail) e.g. stack operations for C01.S
 
@@ -250,7 +252,7 @@ class Interp:
             return False
         if v is True:
             return True
-        if isinstance(v, (int, float, str, tuple, list, dict, set)):
+        if isinstance(v, (int, float, str, tuple, list, dict, set, frozenset)):
             return bool(v)
         if isinstance(v, ADict):
             return bool(v.d)
@@ -272,6 +274,8 @@ class Interp:
             return list(v.d.keys())
         if isinstance(v, (list, tuple)):
             return list(v)
+        if isinstance(v, (set, frozenset)):
+            return sorted(v, key=repr)
         if isinstance(v, dict):
             return list(v.keys())
         self.bad(node, f'iteration over {type(v).__name__}')
@@ -302,6 +306,17 @@ class Interp:
                 return env[e.id]
             if e.id in self.globals:
                 return self.globals[e.id]
+            if e.id in self.mod.assigns and len(self.mod.assigns[e.id]) == 1:
+                # module-level constant (table, tuple of regexes ...): evaluated once, lazily
+                if e.id not in self._lazy:
+                    from .core import const_eval, NotConstant
+                    try:
+                        self._lazy[e.id] = const_eval(self.mod, self.mod.assigns[e.id][0])
+                    except Exception:
+                        self._lazy[e.id] = self.eval(self.mod.assigns[e.id][0], {})
+                return self._lazy[e.id]
+            if e.id in ('set', 'frozenset', 'sorted', 'any', 'all', 'zip', 'abs'):
+                return ('builtin', e.id)
             if e.id in ('len', 'next', 'iter', 'reversed', 'list', 'enumerate', 'isinstance', 'str', 'int', 'float', 'dict', 'tuple', 'range', 'bool', 'min', 'max'):
                 return ('builtin', e.id)
             self.bad(e, f'unknown name {e.id}')
@@ -320,6 +335,11 @@ class Interp:
             return AList([self.eval(x, env) for x in e.elts])
         if isinstance(e, ast.Tuple):
             return tuple(self.eval(x, env) for x in e.elts)
+        if isinstance(e, ast.Set):
+            items = [self.eval(x, env) for x in e.elts]
+            if not all(isinstance(x, (str, int, float, tuple)) for x in items):
+                self.bad(e, 'set of non-constant items')
+            return frozenset(items)
         if isinstance(e, ast.JoinedStr):
             parts = []
             symbolic = False
@@ -373,6 +393,11 @@ class Interp:
                 hi = self.eval(e.slice.upper, env) if e.slice.upper is not None else None
                 if isinstance(base, AList):
                     return AList(base.l[lo:hi])
+                r = self.slice_hook(base, lo, hi, e)
+                if r is not NotImplemented:
+                    return r
+                if isinstance(base, (str, tuple, list)) and all(x is None or isinstance(x, int) for x in (lo, hi)):
+                    return base[lo:hi]
                 return Sym('slice', base, lo, hi)
             key = self.eval(e.slice, env)
             if isinstance(base, ADict):
@@ -387,6 +412,10 @@ class Interp:
                 except IndexError:
                     raise RaiseSig('IndexError', (key,), e)
             if isinstance(base, (tuple, list)):
+                return base[key]
+            if isinstance(base, dict):
+                if key not in base:
+                    raise RaiseSig('KeyError', (key,), e)
                 return base[key]
             if isinstance(base, AMatch) and isinstance(key, (str, int)):
                 return self.group(base, key, e)
@@ -436,7 +465,7 @@ class Interp:
                 r = a in b.d
             elif isinstance(b, AList):
                 r = any(self._eq(a, x) for x in b.l)
-            elif isinstance(b, (tuple, list, set, dict, str)) and not isinstance(a, (Sym, ALine)):
+            elif isinstance(b, (tuple, list, set, frozenset, dict, str)) and not isinstance(a, (Sym, ALine)):
                 r = a in b
             else:
                 self.bad(node, 'membership test outside the subset')
@@ -480,6 +509,11 @@ class Interp:
             base = self.eval(f.value, env)
             m = f.attr
             args = [self.eval(a, env) for a in e.args]
+            if e.keywords:
+                self.bad(e, 'keyword arguments in a method call')
+            r = self.method_hook(base, m, args, e)
+            if r is not NotImplemented:
+                return r
             if isinstance(base, ARegex):
                 if m == 'match':
                     line = args[0]
@@ -502,6 +536,8 @@ class Interp:
                 if m in ('start', 'end', 'span'):
                     return Sym(m, base.regex, args[0] if args else 0, base.line.lid)
                 self.bad(e, f'match method {m}')
+            if isinstance(base, dict) and m == 'get':
+                return base.get(args[0], args[1] if len(args) > 1 else None)
             if isinstance(base, ADict):
                 if m == 'get':
                     return base.d.get(args[0], args[1] if len(args) > 1 else None)
@@ -577,8 +613,18 @@ class Interp:
             self.bad(e, f'method call .{m}() on {type(base).__name__}')
         fn = self.eval(f, env)
         args = [self.eval(a, env) for a in e.args]
+        kwargs = {}
+        for kw in e.keywords:
+            if kw.arg is None:
+                self.bad(e, '** argument')
+            kwargs[kw.arg] = self.eval(kw.value, env)
+        if kwargs and not isinstance(fn, ModuleFunc):
+            self.bad(e, 'keyword arguments outside the subset')
         if isinstance(fn, tuple) and fn[0] == 'builtin':
             name = fn[1]
+            r = self.builtin_hook(name, args, e)
+            if r is not NotImplemented:
+                return r
             if name == 'len':
                 v = args[0]
                 if isinstance(v, AList):
@@ -619,6 +665,8 @@ class Interp:
                 self.bad(e, 'isinstance class outside the subset')
             if name == 'dict':
                 return ADict()
+            if name in ('set', 'frozenset'):
+                return frozenset(self.iterate(args[0], e)) if args else frozenset()
             if name == 'str':
                 return str(args[0]) if isinstance(args[0], (int, str)) else Sym('str', args[0])
             if name == 'bool':
@@ -631,20 +679,33 @@ class Interp:
                 if self.fail_parse is not None and self.fail_parse(args[0]):
                     raise RaiseSig('BareScriptParserError', (Sym('inner-error'), args[0], Sym('inner-column')), e)
                 return Sym('parsed', args[0])
-            return self.call_function(fn.node, args, e)
+            return self.call_function(fn.node, args, e, kwargs)
         if isinstance(fn, tuple) and fn and fn[0] == 'class':
             return Sym('instance', fn[1], tuple(args))
         self.bad(e, 'call outside the interpreted subset')
 
-    def call_function(self, node, args, at):
-        if self.depth > 4:
+    def method_hook(self, base, m, args, e):
+        return NotImplemented
+
+    def slice_hook(self, base, lo, hi, e):
+        return NotImplemented
+
+    def builtin_hook(self, name, args, e):
+        return NotImplemented
+
+    def call_function(self, node, args, at, kwargs=None):
+        if self.depth > self.max_depth:
             self.bad(at, 'call depth exceeded')
         params = [a.arg for a in node.args.args]
         defaults = node.args.defaults
+        if node.args.vararg or node.args.kwarg or node.args.kwonlyargs or len(args) > len(params):
+            self.bad(at, 'call signature outside the subset')
         env = {}
         for i, p in enumerate(params):
             if i < len(args):
                 env[p] = args[i]
+            elif kwargs and p in kwargs:
+                env[p] = kwargs[p]
             else:
                 di = i - (len(params) - len(defaults))
                 if di < 0:
